@@ -216,15 +216,14 @@ def belowLimitBlocking (s : Globals) (r : Runtime) (m : Machine) (replace : Bool
 
 def belowLimitPadding (s : Globals) (r : Runtime) (m : Machine) : Bool :=
   if r.acct.paddingSent < m.allowedPaddingPackets then decide (r.stateLimit > 0) else
-  -- machine limit
+  -- machine limit (a fraction over zero packets counts as below)
   let mTotal := r.acct.normalSent + r.acct.paddingSent
-  if Fp.gt (Fp.val64 m.maxPaddingFrac) (.fin 0) && mTotal == 0 then true else
-  if Fp.gt (Fp.val64 m.maxPaddingFrac) (.fin 0) &&
+  if Fp.gt (Fp.val64 m.maxPaddingFrac) (.fin 0) && mTotal > 0 &&
       Fp.ge (Fp.div Fp.f64 (Fp.ofNat Fp.f64 r.acct.paddingSent) (Fp.ofNat Fp.f64 mTotal)) (Fp.val64 m.maxPaddingFrac)
   then false else
+  -- global limit
   let gTotal := s.paddingSent + s.normalSent
-  if Fp.gt (Fp.val64 s.maxPaddingFrac) (.fin 0) && gTotal == 0 then true else
-  if Fp.gt (Fp.val64 s.maxPaddingFrac) (.fin 0) &&
+  if Fp.gt (Fp.val64 s.maxPaddingFrac) (.fin 0) && gTotal > 0 &&
       Fp.ge (Fp.div Fp.f64 (Fp.ofNat Fp.f64 s.paddingSent) (Fp.ofNat Fp.f64 gTotal)) (Fp.val64 s.maxPaddingFrac)
   then false else
   decide (r.stateLimit > 0)
